@@ -12,7 +12,7 @@ from ..sds_parser import SdsSyntaxError, parse_stub
 from ..tree import TreeSpec, build, enumerate_trees
 from .c11 import TARGET_NAMES, targets, unit_files
 
-MUTATIONS = ["add_fresh", "add_same_decl_names", "add_same_module_name", "add_reexporting_pkg_same_names", "add_star_reexport_same_module_name", "add_pkg_named_like_decl", "add_same_referenced_class", "add_alias_reexport_same_names"]
+MUTATIONS = ["add_fresh", "add_same_decl_names", "add_same_module_name", "add_reexporting_pkg_same_names", "add_star_reexport_same_module_name", "add_pkg_named_like_decl", "add_same_referenced_class", "add_alias_reexport_same_names", "add_star_reexported_same_class_used_earlier"]
 
 
 def decl_names(unit) -> list[str]:
@@ -50,6 +50,11 @@ def mutate(unit, mu: str) -> dict[str, str]:
     if mu == "add_same_referenced_class":
         ref = unit.get("ref_names") or [f"Fresh{T}"]
         return {f"{x}/__init__.py": "", f"{x}/um{T}.py": "\n\n".join(cls_src(n) for n in ref)}
+    if mu == "add_star_reexported_same_class_used_earlier":
+        # a package that sorts BEFORE the unit: star re-exports its own class named like the referenced class and uses it
+        ref = (unit.get("ref_names") or [f"Fresh{T}"])[0]
+        e = f"{PKG}/a{T}e"
+        return {f"{e}/__init__.py": f"from ._s{T} import *\n", f"{e}/_s{T}.py": cls_src(ref), f"{e}/use{T}.py": f"from ._s{T} import {ref}\n\n\ndef early{T}(p: {ref}) -> {ref}:\n    return p\n"}
     if mu == "add_alias_reexport_same_names":
         pub = [n for n in names if not n.startswith("_")] or [f"Fresh{T}"]
         return {f"{x}/__init__.py": f"from ._u{T} import Other{T} as {pub[0]}\n", f"{x}/_u{T}.py": cls_src(f"Other{T}")}
